@@ -32,11 +32,17 @@ def gen_vec(rng, cid, nmax=3, two=False):
         dv = [["d9", nf], [pos1["center"], N], [pos2[st], N]] + [list(e) for e in g["extra"]]
         rng.shuffle(du)
         rng.shuffle(dv)
-        u, v = gen.rand_data(rng, du, -9, 9), gen.rand_data(rng, dv, -9, 9)
         comp = rng.choice(axnames)
+        if g["extra"] and not two and rng.random() < 0.4:
+            # a partner that does not depend on the extra dimension (a steady field next to a time-dependent one)
+            ex = {e[0] for e in g["extra"]}
+            if comp == "a1":
+                dv = [d for d in dv if d[0] not in ex]
+            else:
+                du = [d for d in du if d[0] not in ex]
+        u, v = gen.rand_data(rng, du, -9, 9), gen.rand_data(rng, dv, -9, 9)
         data, other = (u, v) if comp == "a1" else (v, u)
         if two:
-            comp = rng.choice(axnames)
             data, other = (u, v) if comp == "a1" else (v, u)
             return {"id": cid, "ev": "Vec2D", "op": rng.choice(["diff", "interp"]), "grid": g,
                     "decomp": {"K": list(K), "per": list(per), "orient": [list(o) for o in orient]},
